@@ -295,7 +295,11 @@ class DeviceSim(object):
                 self._send_token()
         elif p.arg0 == wire.AUTH_RSAPUBLICKEY:
             self.pubkey_offered = (p.data, len(self.host_log) - 1)
-            if auth.get("mode") == "pubkey" or (auth.get("mode") == "key" and auth.get("pubkey_ok")):
+            accept = auth.get("mode") == "pubkey" or (auth.get("mode") == "key" and auth.get("pubkey_ok"))
+            if auth.get("rechallenge_after_pubkey"):
+                # adbd keeps challenging while the user has not (yet) confirmed the key
+                self._send_token()
+            if accept:
                 self._send_cnxn()
             # else: the user never accepts; silence
         else:
@@ -491,19 +495,32 @@ class DeviceSim(object):
             return pkt, None
         if kind == "ack":
             _, pkt = s.acks.popleft()
+            is_open_ack = False
             if pkt.cmd == A_OKAY:
                 s.host_pending_ack = False
+                is_open_ack = not s.open_acked
                 s.open_acked = True     # the first OKAY of a stream answers its OPEN; service output follows it
             if pkt.cmd == A_CLSE:
                 s.dev_closed = True
-            return pkt, s
+            return self._legacy_zero(pkt, s, is_open_ack), s
         _, pkt, _ = s.data.popleft()
         if pkt.cmd == A_WRTE:
             s.unacked = True
         elif pkt.cmd == A_CLSE:
             if not s.dev_closed:
                 s.dev_closed = True
-        return pkt, s
+        return self._legacy_zero(pkt, s), s
+
+    def _legacy_zero(self, pkt, s, is_open_ack=False):
+        """Legacy devices address some packets with a zero host id (arg1 == 0); the library's zero-id fall-backs exist for them."""
+        pat = self.cfg.get("zero_arg1")
+        if not pat or is_open_ack or pkt.cmd not in (A_WRTE, A_OKAY, A_CLSE) or pkt.arg0 == 0:
+            return pkt          # (never both ids zero: such a packet could not be attributed to any stream)
+        # a device does this consistently per stream: mixing exact and zero host ids on one stream would split the stream over two
+        # store keys, whose relative order no host could reconstruct
+        if pat[s.index % len(pat)]:
+            return Packet(pkt.cmd, pkt.arg0, 0, pkt.data)
+        return pkt
 
     def delivered(self, pkt, s):
         """The transport handed the last byte of `pkt` to the host."""
